@@ -14,7 +14,7 @@ for p in props:
         checks.append({
             "property_id": pid,
             "quick_cmd": f"bin/verif check {pid} --tier quick",
-            "thorough_cmd": f"bin/verif check {pid} --tier thorough",
+            "thorough_cmd": f"bin/verif check {pid} --tier thorough --cross z3",
             "evidence_file": f"/verif/evidence/{pid}.json",
             "replay_cmd_template": "bin/verif replay {path}",
             "engine": "gosym",
